@@ -40,8 +40,16 @@ def run_case(case):
         if o == 'err':
             raise exceptions.EventHandlingError('no')
         return statuses.Status(o)
+    if case.get('default_entity'):
+        # an entity that overrides no hook: the library's documented defaults are the application handlers
+        from pynetdicom2 import applicationentity as aem
+        default_ae = aem.AEBase(None, 16384)
+        types_ns = types.SimpleNamespace
+        entity = lambda **kw: default_ae
+    else:
+        entity = lambda **kw: types.SimpleNamespace(**kw)
     if prov == 'echo':
-        a = svc.MockAssociation(types.SimpleNamespace(on_receive_echo=lambda c: handler_status()))
+        a = svc.MockAssociation(entity(on_receive_echo=lambda c: handler_status()))
         rq, _ = svc.received(dm.CEchoRQMessage, pc, message_id=mid, sop_class_uid=cls_uid)
         sc.verification_scp(a, svc.ctx(pc, cls_uid), rq)
         w = a.wire()
@@ -49,7 +57,7 @@ def run_case(case):
             return 'C-ECHO-RQ answered %d times' % len(w)
         return expect(svc.fields(w[0]), pc, mid, cls_uid, None, 0x8030, 0x0110 if o == 'err' else o, 'C-ECHO-RSP')
     if prov == 'store':
-        a = svc.MockAssociation(types.SimpleNamespace(on_receive_store=lambda c, d: handler_status()))
+        a = svc.MockAssociation(entity(on_receive_store=lambda c, d: handler_status()))
         rq, _ = svc.received(dm.CStoreRQMessage, pc, message_id=mid, sop_class_uid=cls_uid, affected_sop_instance_uid=inst_uid,
                              priority=0, move_originator_aet='X', move_originator_message_id=0)
         import io
@@ -155,7 +163,7 @@ def run_case(case):
                     raise exceptions.EventHandlingError('no')
                 return {'aet': 'R'}, [(r.ReferencedSOPClassUID, r.ReferencedSOPInstanceUID) for r in succ], \
                     [(r.ReferencedSOPClassUID, r.ReferencedSOPInstanceUID, 0x0110) for r in fail]
-            a = svc.MockAssociation(types.SimpleNamespace(on_commitment_request=on_commitment_request, request_association=request_association))
+            a = svc.MockAssociation(entity(on_commitment_request=on_commitment_request, request_association=request_association))
             rq, _ = svc.received(dm.NActionRQMessage, pc, message_id=mid, sop_class_uid=cls_uid,
                                  requested_sop_instance_uid=STORAGE_COMMITMENT_INSTANCE, action_type_id=1, data_set=dsutils.encode(ds, True, True))
             try:
@@ -177,7 +185,7 @@ def run_case(case):
             list(s); list(f)
             if o == 'err':
                 raise exceptions.EventHandlingError('no')
-        a = svc.MockAssociation(types.SimpleNamespace(on_commitment_response=on_commitment_response))
+        a = svc.MockAssociation(entity(on_commitment_response=on_commitment_response))
         # the response repeats the REQUEST's instance UID: every other request names another one than the well-known
         ev_inst = STORAGE_COMMITMENT_INSTANCE if (mid + pc) % 2 else inst_uid
         rq, _ = svc.received(dm.NEventReportRQMessage, pc, message_id=mid, sop_class_uid=cls_uid,
@@ -215,6 +223,13 @@ def run(chk):
                 seed += 1
                 cases.append({'provider': prov, 'msgid': mid, 'pc': [1, 3, 127, 255][seed % 4], 'outcome': o, 'uid_len': [1, 2, 17, 63, 64][seed % 5],
                               'seed': seed, 'store_pc': [5, 9, 253][seed % 3], 'sub_msgid': [mid, 0, 1, 65535, 7][seed % 5]})
+    # an entity that overrides no hook: echo -> success, store -> 'elements discarded' warning, commitment -> not implemented
+    from pynetdicom2 import statuses as _st
+    for prov, o in (('echo', int(_st.SUCCESS)), ('store', int(_st.C_STORE_ELEMENTS_DISCARDED)), ('n-action', 'err'), ('n-event-report', 'err')):
+        for mid in (1, 65535):
+            seed += 1
+            cases.append({'provider': prov, 'msgid': mid, 'pc': [1, 255][seed % 2], 'outcome': o, 'uid_len': 18, 'seed': seed, 'n': 2,
+                          'lists': 'success', 'default_entity': True})
     for prov in ('find', 'move'):
         for n in (0, 1, 2, 5):
             for mid in ids:
